@@ -511,6 +511,31 @@ def _tri_case(ctx, desc, z, flat):
         if not cotan:
             _close(ctx, "dual_lap", "uniform_values", "differs_from_dual_graph_laplacian",
                    "laplacian_triangles(cotan=False) is not degree - adjacency of the face graph", D, R.dual_graph_laplacian(F), 1e-6)
+        else:
+            # off-diagonal magnitude = 1/|cot a + cot b| of the shared edge (cotan_edge_diagonal's documented weight); the sign of the
+            # weight (abs in the docstring, none in the code) is left open; edges near the 1e-8 clamp are not judged
+            inc = R.edge_face_incidence(F)
+            shared = {}
+            for e, fl in inc.items():
+                if len(fl) == 2:
+                    shared.setdefault((min(fl), max(fl)), []).append(e)
+            worst, wit = 0.0, None
+            for (f1, f2), el in shared.items():
+                if len(el) != 1:
+                    continue
+                x, y = el[0]
+                ssum = 0.0
+                for fi in (f1, f2):
+                    f = F[fi]
+                    k = [kk for kk in range(3) if f[kk] not in (x, y)][0]
+                    ssum += tg["cot"][fi, k]
+                if abs(ssum) <= 1e-4:
+                    continue
+                dev = abs(abs(D[f1, f2]) * abs(ssum) - 1.0)
+                if not (dev <= worst):
+                    worst, wit = dev, (f1, f2, float(D[f1, f2]), 1.0 / ssum)
+            ctx.check(worst <= max(1e-5, rel * 1e3), "dual_lap", "cotan_values", "offdiagonal_is_not_inverse_cotangent_sum",
+                      "|laplacian_triangles[f1,f2]| is not 1/|cot a + cot b| of the edge shared by f1 and f2", witness=wit, deviation=worst)
 
     # ---- edge Laplacians
     for name in ("edge_cotan", "edge_uniform"):
@@ -529,6 +554,15 @@ def _tri_case(ctx, desc, z, flat):
         bad = [(int(i), int(j)) for i, j in zip(*np.nonzero(off)) if (int(i), int(j)) not in pairs]
         ctx.check(not bad, "edge_lap", "support", "couples_edges_without_common_face", "laplacian_edges couples two edges that are not sides of a common triangle",
                   pair=bad[:1], option=name)
+        # values, up to one global positive factor: the edge-based (Crouzeix-Raviart) stiffness matrix, weight cot(angle between the two sides)
+        ref = R.edge_cr_stiffness(F, eid, tg["cot"] if name == "edge_cotan" else None)
+        tr = float(np.trace(ref))
+        sc = float(np.trace(D)) / tr if tr > 0 else float("nan")
+        if ctx.check(sc > 0 and math.isfinite(sc), "edge_lap", "scale", "trace_not_positive", "laplacian_edges has a non-positive trace", trace=float(np.trace(D)), option=name):
+            _close(ctx, "edge_lap", "values", "not_proportional_to_edge_stiffness",
+                   "laplacian_edges is not a positive multiple of the edge-based stiffness matrix (-2 cot(angle between two sides) off the diagonal)",
+                   D, sc * ref, max(rel * 10, 1e-8), option=name, scale=sc,
+                   classify=lambda i, j: "diagonal" if i == j else ("sides_of_a_triangle" if (i, j) in pairs else "unrelated_edges"))
 
     # ---- cotan edge diagonal
     r1, r0 = res.get("cotan_diag_inverse"), res.get("cotan_diag")
